@@ -98,20 +98,20 @@ def relational(cases, impl):
 def cases(tier, rng, ifaces):
     out = []
     echo = ifaces['echo']
-    streams = [b'*IDN?;:STR "ab\ncd"\n', b'CHAR?;:BLK #15ab\ncd;*IDN?\n', b'ECHO:U8? 7;:STR "\n\n";:ECHO:U8? 8\n', b'*IDN?\n', b'X\n*IDN?\nX\n', b'ECHO:U8? 1;:ECHO:U8? 2\nFOO\nECHO:BOOL? ON\n', b'STR "a\nb";:CHAR?\n', b'\n\n', b'ARB?\nLONG?\n',
+    streams = [b'ECHO:BOOL? ON;X\n', b'X;ECHO:U8? 7\nX\n', b'ECHO:U8? 200;X\nECHO:U8? 9\n', b'*IDN?;:STR "ab\ncd"\n', b'CHAR?;:BLK #15ab\ncd;*IDN?\n', b'ECHO:U8? 7;:STR "\n\n";:ECHO:U8? 8\n', b'*IDN?\n', b'X\n*IDN?\nX\n', b'ECHO:U8? 1;:ECHO:U8? 2\nFOO\nECHO:BOOL? ON\n', b'STR "a\nb";:CHAR?\n', b'\n\n', b'ARB?\nLONG?\n',
                b'SYST:ERR?\nNOPE\nSYST:ERR?\nSYST:ERR:COUN?\n', b'X']
     from .C06 import gen_message
     for _ in range(20 if tier == 'quick' else 300):
         streams.append(b''.join(gen_message(rng, echo, rng.random() < 0.3)[0] for _ in range(rng.randint(1, 3))))
     gid = 0
     for s in streams:
-        for n in ([8, 64] if tier == 'quick' else [3, 8, 16, 64, 256]):
+        for n in ([8, 16, 64] if tier == 'quick' else [3, 8, 16, 64, 256]):
             for sched in ([], [1] * len(s), [rng.randint(0, 7) for _ in range(len(s))]):
                 gid += 1
                 ss = ','.join(map(str, sched)) or '-'
                 base = f'PROC echo {n} {hx(s)} {ss}'
                 out.append(Case(base, oracle, {'group': gid, 'kind': 'PROC-nofault'}))
-                if n >= 64 and len(s) <= n:   # every message certainly fits the command buffer
+                if n >= 16 and len(s) <= n:   # every message certainly fits the command buffer
                     out.append(Case(f'RUN echo std {hx(s)}', None, {'group': gid, 'kind': 'RUN-whole', 'role': 'run'}))
                 # number of calls of the fault-free run is unknown here: inject up to a generous bound
                 bound = min(len(s) * 2 + 12, 60 if tier == 'quick' else 200)
